@@ -127,6 +127,31 @@ Proof.
     + destruct (dead bs1 w); inversion S1; subst; discriminate.
 Qed.
 
+(* worker failure (blocker reply or crash) never yields a partial result: in every state of every run
+   (i) each store record is the initial cache record or the sequential one (no half-written interface / error record),
+   (ii) every printed diagnostic is the sequential one of its SCC, and
+   (iii) either the failure is reported (abort, status 2) or, if the build completes, the records are exactly the sequential ones *)
+Theorem worker_failure_no_partial_result : forall sched (bs : BS), brun' (binit' N) sched = Some bs ->
+  (forall s, (s_iface (sto (bco bs)) s = iface0 s \/ s_iface (sto (bco bs)) s = SI s)
+          /\ (s_errs (sto (bco bs)) s = errs0 s \/ s_errs (sto (bco bs)) s = s_errs SEQ' s))
+  /\ (forall s e, In (s, e) (flushed (bco bs)) -> s_errs SEQ' s = Some e)
+  /\ ((exists o, aborted bs = Some o /\ bstatus Iface Errs Blk bs = 2)
+      \/ (aborted bs = None /\ bstatus Iface Errs Blk bs = 0
+          /\ (finished Iface Errs nodes N (bco bs) = true ->
+              forall s, s_iface (sto (bco bs)) s = SI s /\ s_errs (sto (bco bs)) s = s_errs SEQ' s))).
+Proof.
+  intros sched bs H. pose proof (blocker_run_inv sched bs H) as HI. split; [|split].
+  - intros s. split.
+    + exact (i_v6 Src Iface Errs nodes deps src analyze_iface analyze_impl is_fresh iface0 errs0 N (bco bs) HI s).
+    + exact (i_v4 Src Iface Errs nodes deps src analyze_iface analyze_impl is_fresh iface0 errs0 N (bco bs) HI s).
+  - exact (blocker_run_diagnostics_sequential sched bs H).
+  - unfold bstatus. destruct (aborted bs) as [o|] eqn:Ea.
+    + left. exists o. auto.
+    + right. split; auto. split; auto. intros Hfin s.
+      exact (par_eq_seq Src Iface Errs nodes deps src analyze_iface analyze_impl is_fresh iface0 errs0 N Hwf _ (bco bs)
+               (blocker_run_is_coarse_run sched bs H) Hfin s).
+Qed.
+
 End PB.
 
 (* ---- the full statement is FALSE: the diagnostics printed before the blocker depend on batching / reply order.
@@ -155,3 +180,12 @@ Proof.
   assert (A : aborted bs = Some (Reported 7)) by (vm_compute in E; inversion E; subst; reflexivity).
   specialize (H A). vm_compute in E. inversion E; subst. vm_compute in H. discriminate.
 Qed.
+
+(* the hypotheses are satisfiable: a run in which a worker dies in the middle of its batch and the coordinator aborts *)
+Definition y_crash : list bevent := [BCoarse EClassify; BCoarse (ESubmit 0 [0; 1]); BCoarse (EIface 0); BCrash 0; BDetect 0].
+Example crash_run_aborts :
+  match brun nat nat nat nat y_nodes y_deps (fun s => s) y_ai y_am y_fr (fun _ _ => None) (binit nat nat nat y_nodes y_deps (fun _ => None) (fun _ => None) 1) y_crash with
+  | Some bs => match aborted bs with Some Crashed => bstatus nat nat nat bs =? 2 | _ => false end
+  | None => false
+  end = true.
+Proof. vm_compute. reflexivity. Qed.
